@@ -5,17 +5,12 @@ import Mathlib.Tactic
 open BobEM
 
 /-- the fold invariant: the running best is ≤ every element seen so far -/
-theorem argminFin_le (K : Nat) (d : Fin (K+1) → ℝ) (k : Fin (K+1)) :
-    d (argminFin K d) ≤ d k := by
-  unfold argminFin
-  -- generalise: after folding the first m successors, best ≤ d j for all j ≤ m
-  suffices h : ∀ m (hm : m ≤ K),
+theorem argminFin_le_aux {K : Nat} : ∀ m (hm : m ≤ K) (d : Fin (K+1) → ℝ),
       ∀ j : Fin (K+1), j.val ≤ m →
         d (Fin.foldl m (fun best (i : Fin m) =>
-            if d ⟨i.val+1, by omega⟩ < d best then ⟨i.val+1, by omega⟩ else best) 0) ≤ d j by
-    have := h K (le_refl K) k (by omega)
-    exact this
-  intro m
+            if d ⟨i.val+1, by omega⟩ < d best then ⟨i.val+1, by omega⟩ else best) 0) ≤ d j := by
+  intro m hm d
+  revert hm
   induction m with
   | zero =>
     intro _ j hj
@@ -39,4 +34,9 @@ theorem argminFin_le (K : Nat) (d : Fin (K+1) → ℝ) (k : Fin (K+1)) :
       · exact ihm j (by omega)
       · have : j = ⟨m+1, by omega⟩ := Fin.ext (by simp; omega)
         rw [this]; exact not_lt.mp hlt
+
+theorem argminFin_le (K : Nat) (d : Fin (K+1) → ℝ) (k : Fin (K+1)) :
+    d (argminFin K d) ≤ d k := by
+  unfold argminFin
+  exact argminFin_le_aux K (le_refl K) d k (by omega)
 #print axioms argminFin_le
